@@ -161,6 +161,10 @@ soa_struct!(clone, pub struct DrP { pub a: Pl, pub b: Pl });
 impl Drop for DrP { fn drop(&mut self) { struct_dropped(self.a.0) } }
 shape!(DrP, DrPVec, DrPSlice, DrPSliceMut, DrPRef, DrPRefMut, DrPPtr, DrPPtrMut, drops=true, [(a leaf Pl), (b leaf Pl)]);
 
+// plain data with a user-written Clone and no drop glue anywhere (`needs_drop::<PlC>() == false`)
+soa_struct!(clone, pub struct PlC { pub a: Pc, pub b: Pc });
+shape!(PlC, PlCVec, PlCSlice, PlCSliceMut, PlCRef, PlCRefMut, PlCPtr, PlCPtrMut, drops=false, [(a leaf Pc), (b leaf Pc)]);
+
 // nested SoA in first / middle / last position, two levels deep, and the flattened twins
 soa_struct!(clone, pub struct NFirst { #[nested_soa] pub n: Inner, pub c: Tk<4> });
 shape!(NFirst, NFirstVec, NFirstSlice, NFirstSliceMut, NFirstRef, NFirstRefMut, NFirstPtr, NFirstPtrMut, drops=false, [(n nested Inner), (c leaf Tk<4>)]);
